@@ -21,6 +21,7 @@
 """SSH connection handlers"""
 
 import asyncio
+import copy
 import functools
 import getpass
 import inspect
@@ -5975,6 +5976,10 @@ class SSHServerConnection(SSHConnection):
             keypair = self._server_host_keys.get(alg)
             if keypair:
                 if alg != keypair.algorithm:
+                    # The key pair is shared by all connections which
+                    # use these options. Set the algorithm negotiated
+                    # on this connection on a copy of our own.
+                    keypair = copy.copy(keypair)
                     keypair.set_sig_algorithm(alg)
 
                 self._server_host_key = keypair
